@@ -94,41 +94,54 @@ namespace Pistache::Tcp
                 handleNotify();
             }
 
-            else if (entry.isReadable())
+            else
             {
-                auto tag = entry.getTag();
-                if (isPeerFd(tag))
+                // One event can report a descriptor readable AND writable.  Peers are
+                // registered edge-triggered, so a writable edge that is skipped here
+                // never comes back and the writes queued for that peer stay unsent:
+                // handle both conditions.
+                const bool readable = entry.isReadable();
+                if (readable)
                 {
-                    auto& peer = getPeer(tag);
-                    handleIncoming(peer);
-                }
-                else if (isTimerFd(tag))
-                {
-                    auto it      = timers.find(static_cast<decltype(timers)::key_type>(tag.value()));
-                    auto& entry_ = it->second;
-                    handleTimer(std::move(entry_));
-                    timers.erase(it->first);
-                }
-            }
-            else if (entry.isWritable())
-            {
-                auto tag = entry.getTag();
-                auto fd  = static_cast<Fd>(tag.value());
-
-                {
-                    Guard guard(toWriteLock);
-                    auto it = toWrite.find(fd);
-                    if (it == std::end(toWrite))
+                    auto tag = entry.getTag();
+                    if (isPeerFd(tag))
                     {
+                        auto& peer = getPeer(tag);
+                        handleIncoming(peer);
+                    }
+                    else if (isTimerFd(tag))
+                    {
+                        auto it      = timers.find(static_cast<decltype(timers)::key_type>(tag.value()));
+                        auto& entry_ = it->second;
+                        handleTimer(std::move(entry_));
+                        timers.erase(it->first);
+                    }
+                }
+                if (entry.isWritable())
+                {
+                    auto tag = entry.getTag();
+                    auto fd  = static_cast<Fd>(tag.value());
+
+                    bool pending;
+                    {
+                        Guard guard(toWriteLock);
+                        pending = toWrite.find(fd) != std::end(toWrite);
+                    }
+                    if (!pending)
+                    {
+                        // after input was handled in this same event the peer may be
+                        // gone or its queue already drained; otherwise this is a bug
+                        if (readable)
+                            continue;
                         throw std::runtime_error(
                             "Assertion Error: could not find write data");
                     }
+
+                    reactor()->modifyFd(key(), fd, NotifyOn::Read, Polling::Mode::Edge);
+
+                    // Try to drain the queue
+                    asyncWriteImpl(fd);
                 }
-
-                reactor()->modifyFd(key(), fd, NotifyOn::Read, Polling::Mode::Edge);
-
-                // Try to drain the queue
-                asyncWriteImpl(fd);
             }
         }
     }
